@@ -397,6 +397,16 @@ IdleTimeout ==
   /\ st' = ClosedSt(st)
   /\ Emit(Cmd("IDLE", ""), <<R(421, <<4, 4, 2>>)>>, CloseCbs(st))
 
+\* nothing arrives within ReadTimeout while the server waits for a SASL
+\* response.  AS THE CODE IS (conn.go handleAuth: "TODO: error handling"): the
+\* exchange is abandoned without any reply and the server is back in command
+\* mode, where the idle timeout starts afresh - it neither announces that it
+\* gives up nor closes at this point (DESIGN.md section 4).
+AuthIdle ==
+  /\ ~st.closed /\ st.authLeft > 0 /\ "idle" \in Alphabet
+  /\ st' = [st EXCEPT !.authLeft = 0, !.authFinal = ""]
+  /\ Emit(Cmd("IDLE", "auth"), <<>>, <<>>)
+
 \* an over-long command line: 500 5.4.0 and the connection is closed
 LongLine ==
   \* also while the server waits for an AUTH response
@@ -547,7 +557,7 @@ Next ==
   \/ BdatAny
   \/ Rset \/ Noop \/ Vrfy \/ Unimpl
   \/ \E v \in {"unknown", "empty", "short", "nospace"} : BadLine(v)
-  \/ Quit \/ PeerClose \/ PeerAbort \/ LongLine \/ IdleTimeout \/ PanicMail \/ DataPanic \/ AfterClose
+  \/ Quit \/ PeerClose \/ PeerAbort \/ LongLine \/ IdleTimeout \/ AuthIdle \/ PanicMail \/ DataPanic \/ AfterClose
   \/ \E over \in BOOLEAN : DataCut(over)
   \/ \E n \in ChunkSizes, l \in BOOLEAN, p \in {"", "acc", "rej", "early", "panic"}, some \in BOOLEAN : BdatCut(n, l, p, some)
   \/ \E ir \in {"none", "empty", "bytes"}, nchal \in 0..2, fin \in {"ok", "fail"} : AuthStart(ir, nchal, fin)
@@ -638,6 +648,7 @@ C10_OnlyWhenAvailable ==
 ReplyCountOK(l, preSt) ==
   LET n == Len(l.replies) IN
   CASE l.cmd.c \in {"EOF", "AFTER"} -> n = 0
+    [] l.cmd.c = "IDLE" /\ l.cmd.a = "auth" -> n = 0     \* (as the code is, see AuthIdle)
     [] l.cmd.c = "DATA" /\ l.cmd.p = "all-panic" -> n >= 2
     [] l.cmd.c = "DATA" /\ n > 1 -> n = 1 + (IF cfg.lmtp THEN preSt.nrcpt ELSE 1)
     [] l.cmd.c = "BDAT" /\ l.cmd.l /\ l.cmd.a = "" /\ l.replies[1].code \in {250, 554, 421} ->
